@@ -111,6 +111,52 @@ Theorem C14_row_sums_full :
 Proof. exact row_total_rowsum. Qed.
 Print Assumptions C14_row_sums_full.
 
+(* C14_network.  For a clean annotated network (t-degree of every vertex v = c * jd_v[i], c > 0: c = 1
+   for 2-cliques, 2 for triangles) with at least one t-stub:
+   - the row sum of the C13 matrix of topology (i, t) has the closed form
+     (a_i + 1) #{v : jd v = a + e_i} / sum_v jd_v[i]            (double counting of edge ends),
+   - and equals the excess distribution of the network's empirical joint degree distribution
+     at every excess tuple a = k - e_i of an occurring annotation k with k_i > 0. *)
+Theorem C14_network_rowsum_closed_form :
+  forall (g : net) (T : nat), valid_net T g ->
+  forall (i t : nat), (i < T)%nat -> forall c : Z, clean_for g i t c ->
+  forall (cnt : counter) (a : key), length a = T -> col_sum g i <> 0%Z ->
+    rowsum T (get_ejk g (count_edge_types cnt (edges g)) i t) a
+    == inject_Z (knth i a + 1) * nq (vcount g (kinc i a)) / inject_Z (col_sum g i).
+Proof. exact network_rowsum. Qed.
+Print Assumptions C14_network_rowsum_closed_form.
+
+Theorem C14_network_partial :
+  forall (g : net) (T i t : nat) (c : Z) (cnt : counter) (k : key),
+    valid_net T g -> (i < T)%nat -> clean_for g i t c -> col_sum g i <> 0%Z ->
+    In k (jds g) -> (0 < knth i k)%Z ->
+    rowsum T (get_ejk g (count_edge_types cnt (edges g)) i t) (kdec i k)
+    == dgetq (spec_forward_i (jdd_from_network g) i) (kdec i k).
+Proof. exact network_identity. Qed.
+Print Assumptions C14_network_partial.
+
+(* the full dict-level statement (NOT proved in this form: what is missing is the plumbing that
+   excess_from_ejk applied to the extractor's output with the extractor's excess keys returns, for
+   every topology, a dict with exactly the keys xkeys_i whose values are the row sums above; the
+   value part follows from C14_row_sums_value + C14_row_sums_full + C14_network_partial, the coverage
+   hypothesis of C14_row_sums_full holds because under cleanness every end of a t-edge has jd[i] > 0).
+   The checker below judges the implementation against exactly this statement. *)
+Definition C14_network_full : Prop :=
+  forall (g : net) (names cs : list nat),
+    valid_net (length names) g -> NoDup names -> jds g <> [] ->
+    Forall (fun k => Forall (fun x => (0 <= x)%Z) k) (jds g) ->
+    length cs = length names ->
+    (forall i name c, nth_error names i = Some name -> nth_error cs i = Some c ->
+                      clean_for g i name (Z.of_nat c) /\ col_sum g i <> 0%Z) ->
+    exists rows fwd, net_rows g names = Ok rows /\ net_forward g = Ok fwd /\
+                     C14_network_spec 0 g names cs rows fwd.
+
+Theorem C14_network_checker_iff :
+  forall eps g names cs rows fwd,
+    check_networkb eps g names cs rows fwd = true <-> C14_network_spec eps g names cs rows fwd.
+Proof. exact check_networkb_iff. Qed.
+Print Assumptions C14_network_checker_iff.
+
 (* the verified checkers that judge the implementation's outputs are equivalent to the
    Prop-level specifications, and the model meets them exactly (eps = 0) *)
 Theorem C14_forward_checker_iff :
@@ -185,6 +231,25 @@ Example C14_nonvacuous_roundtrip :
   | _ => False
   end.
 Proof. vm_compute. repeat split; reflexivity. Qed.
+
+(* a clean network: a triangle (topology 1, c = 2) and two single edges (topology 0, c = 1) *)
+Definition ex_net14 : net :=
+  mk_net [[1; 1]; [1; 1]; [0; 1]; [1; 0]; [1; 0]]%Z
+         [(0, 1, 1); (1, 2, 1); (0, 2, 1); (0, 3, 0); (1, 4, 0)]%nat.
+
+Example C14_nonvacuous_network :
+  valid_net 2 ex_net14 /\ clean_for ex_net14 1 1 2 /\ clean_for ex_net14 0 0 1 /\
+  col_sum ex_net14 1 <> 0%Z /\
+  match net_rows ex_net14 [0; 1]%nat, net_forward ex_net14 with
+  | Ok rows, Ok fwd => check_networkb 0 ex_net14 [0; 1]%nat [1; 2]%nat rows fwd = true
+  | _, _ => False
+  end.
+Proof.
+  split; [apply valid_netb_spec; reflexivity|].
+  split; [apply (clean_forb_spec ex_net14 1 1 2); reflexivity|].
+  split; [apply (clean_forb_spec ex_net14 0 0 1); reflexivity|].
+  split; [discriminate|]. vm_compute. reflexivity.
+Qed.
 
 Example C14_nonvacuous_forward :
   match forward ex_P with
